@@ -209,7 +209,11 @@ class AstMap:
         """
         if not isinstance(std_node, CaitNode):
             raise TypeError
-        self.exp_table[ins_node.astNode.id] = std_node
+        # Attribute and arg nodes carry the placeholder name in `_id`, not `id`
+        key = getattr(ins_node.astNode, 'id', None)
+        if key is None:
+            key = ins_node.astNode._id
+        self.exp_table[key] = std_node
 
     def add_node_pairing(self, ins_node, std_node):
         """
